@@ -784,6 +784,10 @@ func (b *bearerHandler) validateResponse(resp *http.Response) error {
 	if err := decoder.Decode(&decoded); err != nil {
 		return err
 	}
+	// a response without a token must not replace the current token or be used as one
+	if decoded.Token == "" && decoded.AccessToken == "" {
+		return fmt.Errorf("auth response did not include a token: %w", errs.ErrParsingFailed)
+	}
 	b.token = decoded
 
 	if b.token.ExpiresIn < minTokenLife {
